@@ -137,8 +137,13 @@ def handleConv (inp out : List String) : String :=
         | .triangle a b c =>
           let p : P (Nat × List Pt × Nat × List Pt) := do
             lit "poly"; let n1 ← nat; let t1 ← pts; lit "topoly"; let n2 ← nat; let t2 ← pts; pure (n1, t1, n2, t2)
-          (P.run p rest).map (fun (n1, t1, n2, t2) =>
-            n1 == 0 && n2 == 0 && t1 == triangleToPolygon a b c && t2 == triangleToPolygon a b c)
+          -- `arr`: `Triangle::from([a, b, c]).to_array()` and the coordinates of `Triangle::from([a, b, c]).to_lines()`:
+          -- the array conversions keep the corners in the order given (only `Triangle::new` re-orients)
+          let p2 : P ((Nat × List Pt × Nat × List Pt) × List Pt × List Pt) := do
+            let x ← p; lit "arr"; let ar ← pts; lit "lines"; let ls ← pts; pure (x, ar, ls)
+          (P.run p2 rest).map (fun ((n1, t1, n2, t2), ar, ls) =>
+            n1 == 0 && n2 == 0 && t1 == triangleToPolygon a b c && t2 == triangleToPolygon a b c &&
+            ar == [a, b, c] && ls == [a, b, b, c, c, a])
         | .line a b =>
           let p : P (List Pt) := do lit "ls"; pts
           (P.run p rest).map (fun t => t == lineToLineString a b)
